@@ -2,9 +2,11 @@ package h
 
 import (
 	"errors"
+	"strings"
 
 	z "github.com/Oudwins/zog"
 	p "github.com/Oudwins/zog/internals"
+	"github.com/Oudwins/zog/parsers/zjson"
 	v "github.com/Oudwins/zog/zzverif"
 )
 
@@ -19,8 +21,8 @@ func init() { Registry["C07"] = C07_Run }
 //  hist/<prior>/<probe>  explicit histories: a prior call (options, outcome, optional Collect)
 //                   followed by the probe, compared with the probe alone.
 
-var c07Probes = []string{"int-test", "int-coerce", "int-required", "struct", "slice", "custom-issue"}
-var c07Priors = []string{"ctxvalue", "formatter", "failing-struct", "collect-map", "collect-list", "catching"}
+var c07Probes = []string{"int-test", "int-coerce", "int-required", "struct", "slice", "custom-issue", "ptr-validate", "null-json"}
+var c07Priors = []string{"ctxvalue", "formatter", "failing-struct", "collect-map", "collect-list", "catching", "panicking", "null-json"}
 
 func C07_Jobs() []string {
 	var out []string
@@ -103,7 +105,7 @@ func obsList(o *c07Obs, l z.ZogIssueList) {
 
 func obsMap(o *c07Obs, m z.ZogIssueMap) {
 	o.add(len(m))
-	for _, k := range []string{"$first", "$root", "a", "b", "[0]", "[1]", "stale", "old"} {
+	for _, k := range []string{"$first", "$root", "a", "b", "[0]", "[1]", "stale", "old", "p", "q"} {
 		l, ok := m[k]
 		o.add(k, ok)
 		if k == "$first" { // which issue is first may depend on the visit order (C09)
@@ -154,6 +156,23 @@ func c07Probe(kind string, g, x int) *c07Obs {
 		for _, e := range d {
 			o.add(e)
 		}
+	case "ptr-validate":
+		// Validate through pointer nodes: NotNil on a nil pointer, and the own tests of a
+		// pointed-to slice
+		var np *int
+		obsMap(o, z.Ptr(z.Int()).NotNil().Validate(&np))
+		sl := []int{x}
+		psl := &sl
+		obsMap(o, z.Ptr(z.Slice(z.Int().GT(g)).Min(3)).Validate(&psl))
+		var ns struct {
+			P *int
+			Q *[]int
+		}
+		obsMap(o, z.Struct(z.Schema{"p": z.Ptr(z.Int()).NotNil(), "q": z.Ptr(z.Slice(z.Int())).NotNil()}).Validate(&ns))
+	case "null-json":
+		var d struct{ A int }
+		errs := z.Struct(z.Schema{"a": z.Int()}).Parse(zjson.Decode(strings.NewReader("null")), &d, z.WithIssueFormatter(func(e *z.ZogIssue, c z.Ctx) { e.SetMessage("probe-formatter") }))
+		obsMap(o, errs)
 	case "custom-issue":
 		d := 0
 		errs := z.Int().TestFunc(func(val any, ctx z.Ctx) bool {
@@ -250,11 +269,32 @@ func c07Prior(kind string) {
 		d := 0
 		errs := z.Int().GT(100).LT(-100).Parse(1, &d)
 		z.Issues.SanitizeListAndCollect(errs)
+	case "null-json":
+		var d struct{ A int }
+		z.Struct(z.Schema{"a": z.Int()}).Parse(zjson.Decode(strings.NewReader("null")), &d, z.WithIssueFormatter(staleFormatter))
+		var pd *struct{ A int }
+		z.Ptr(z.Struct(z.Schema{"a": z.Int()})).Parse(zjson.Decode(strings.NewReader("null")), &pd, z.WithIssueFormatter(staleFormatter))
+	case "panicking":
+		// a user callback panics in the middle of a nested execution and the caller recovers (as
+		// net/http does): the deferred Free() calls hand half-used objects back to the pools
+		func() {
+			defer func() { recover() }()
+			var d struct {
+				N struct{ X int }
+				L []int
+			}
+			boom := func(val any, ctx z.Ctx) bool { panic("user callback panicked") }
+			z.Struct(z.Schema{"n": z.Struct(z.Schema{"x": z.Int().TestFunc(boom)}), "l": z.Slice(z.Int().TestFunc(boom))}).
+				Parse(map[string]any{"n": map[string]any{"x": 1}, "l": []any{1, 2}}, &d, z.WithCtxValue("k", 9))
+		}()
 	case "catching":
 		var d struct {
 			A int
 			B int
 		}
+		dd := 5
+		z.Int().Catch(3).Parse(7, &dd) // a catching top-level primitive whose catch does not fire
+		z.Int().Catch(3).Validate(&dd)
 		z.Struct(z.Schema{"a": z.Int().GT(100).Catch(3), "b": z.Int().Required().Catch(4)}).Parse(map[string]any{"a": 1}, &d)
 	}
 }
